@@ -221,6 +221,11 @@ fn matches(res: &impl Resolve, at: PlainRef, got: &Primitive, w: &WV) -> Result<
                     Ok(p) => return Err(format!("page /Contents resolves to {}", short(&p))),
                     Err(e) => return Err(format!("page /Contents fails to resolve: {}", error_kind(&e))),
                 }
+                let want_box = Primitive::Array(page_box(content).iter().map(|&x| Primitive::Number(x)).collect());
+                match d.get("MediaBox") {
+                    Some(b) if prim_eq(b, &want_box) => {}
+                    other => return Err(format!("page /MediaBox: wrote {} read {:?}", short(&want_box), other.map(short))),
+                }
                 match d.get("Resources") {
                     Some(Primitive::Reference(x)) if x.id != at.id && x.id != c.id => match res.resolve(*x) {
                         Ok(Primitive::Dictionary(_)) => {}
@@ -268,6 +273,16 @@ fn matches(res: &impl Resolve, at: PlainRef, got: &Primitive, w: &WV) -> Result<
             },
             p => Err(format!("wrote a stream, read {}", short(p))),
         },
+    }
+}
+/// The media box a typed page is written with: half of the pages get a rectangle whose corners are
+/// not in ascending order (as `PageBuilder::size` makes them: top 0, bottom h); what is written is
+/// what must be read
+fn page_box(content: &[u8]) -> [f32; 4] {
+    if content.len() % 2 == 0 {
+        [0.0, 0.0, 100.0, 100.0]
+    } else {
+        [100.0, 80.0, 0.0, 0.0]
     }
 }
 fn short(p: &Primitive) -> String {
@@ -385,7 +400,8 @@ impl<'a> Exec<'a> {
             let mut page = Page::new(self.file.trailer.root.pages.clone());
             page.contents = Some(pdf::content::Content { parts: vec![Stream::new((), content.clone())] });
             page.resources = Some(MaybeRef::Direct(std::sync::Arc::new(Resources::default())));
-            page.media_box = Some(Rectangle { left: 0.0, bottom: 0.0, right: 100.0, top: 100.0 });
+            let mb = page_box(content);
+            page.media_box = Some(Rectangle { left: mb[0], bottom: mb[1], right: mb[2], top: mb[3] });
             let node = PagesNode::Leaf(page);
             let result = match target {
                 Some(t) => self.file.update(t, node).map(|h| (Some(t), h.get_ref().get_inner())),
